@@ -170,6 +170,15 @@ int main()
       if(n > size - off) n = size - off;
       var[v]->prepend((const byte*)*var[v] + off, n);
     }
+    else if(hxIs(l, "appendsub", 3) || hxIs(l, "assignsub", 3))
+    {
+      // a sub-range of the buffer's own window as (pointer, size) argument; clamped to the window
+      usize size = var[v]->size(), off = hxNum(l, 2), n = hxNum(l, 3);
+      if(off > size) off = size;
+      if(n > size - off) n = size - off;
+      if(l.tok[0][1] == 'p') var[v]->append((const byte*)*var[v] + off, n);
+      else var[v]->assign((const byte*)*var[v] + off, n);
+    }
     else if(hxIs(l, "append", 2)) { d = hxBytes(l.tok[2], len); var[v]->append(d, len); }
     else if(hxIs(l, "appendb", 2)) var[v]->append(*var[w]);
     else if(hxIs(l, "resize", 2)) var[v]->resize(hxNum(l, 2));
